@@ -22,6 +22,7 @@ from .helpers import (
     ceil_timeout,
     frozen_dataclass_decorator,
 )
+from .http_exceptions import PayloadEncodingError
 from .http import (
     HttpProcessingError,
     HttpRequestParser,
@@ -659,6 +660,12 @@ class RequestHandler(BaseProtocol, Generic[_Request]):
             resp, reset = await self.finish_response(request, resp, start_time)
         except asyncio.CancelledError:
             raise
+        except (RequestPayloadError, PayloadEncodingError) as exc:
+            # the request body was malformed (bad chunk framing, truncated ...):
+            # the client's fault, not the server's.  A reader that was already
+            # waiting is woken with the payload parser's own error.
+            resp = self.handle_error(request, 400, exc)
+            resp, reset = await self.finish_response(request, resp, start_time)
         except asyncio.TimeoutError as exc:
             self.log_debug("Request handler timed out.", exc_info=exc)
             resp = self.handle_error(request, 504)
